@@ -1,4 +1,10 @@
-// L2: radix string encoding (src/uint/encoding.rs, C17 encode side)
+// L2: radix string encoding (src/uint/encoding.rs) -- C17, encode side
+// body (proved): radix_encode_limbs_to_string (stack / heap buffer selection), Uint::to_string_radix_vartime, Uint::as_limbs_mut,
+//   RadixDivisionParams::encoded_size; lemma_radix_roundtrip: numeral_val(canon_numeral(v, r), r) == Some(v) (parse . format == id, at the
+//   level of the two contracts), lemma_canon_digits (no leading zero, no separators).
+// stub (ASSUMED, exact contracts): radix_encode_limbs_mut_to_string (result == canonical numeral of the value; vec! / copy_within / truncate /
+//   String::from_utf8), RadixDivisionParams::encode_limbs and radix_encode_limbs_by_shifting (out == the out.len() low-order digits, zero
+//   padded), RadixDivisionParams::for_radix, radix_large_divisor; shim vec_prefix_mut (= `&mut vec[..n]`). `const ALL` is not mirrored.
 use vstd::prelude::*;
 use vstd::arithmetic::power::*;
 use vstd::arithmetic::power2::*;
@@ -6,12 +12,15 @@ use vstd::arithmetic::div_mod::*;
 use vstd::arithmetic::mul::*;
 use vstd::string::*;
 use vstd::std_specs::slice::*;
+use vstd::std_specs::bits::*;
 use crate::speclib::*;
 use crate::l0_prim::*;
 use crate::l1_choice::*;
 use crate::l1_limb::*;
 use crate::l2_core::*;
 use crate::l2_encoding_radix::*;
+use crate::l3_divlimb::*;
+use crate::l7_boxed_div::*;
 verus! {
 
 // ---------------------------------------------------------------- spec vocabulary: canonical numerals
@@ -27,10 +36,292 @@ proof fn canon_digits_dec(v: nat, radix: int)
 { if v != 0 && radix >= 2 { let r = radix as nat; assert(v / r < v) by (nonlinear_arith) requires v > 0, r >= 2; } }
 /// the canonical lower-case numeral of v: no leading zeros, "0" for zero
 pub open spec fn canon_numeral(v: nat, radix: int) -> Seq<u8> { if v == 0 { seq![0x30u8] } else { canon_digits(v, radix) } }
+/// the n low-order digits of v in the radix, most significant first, zero padded: the numeral of v mod radix^n written with exactly n digits
+pub open spec fn digits_fixed(v: nat, radix: int, n: nat) -> Seq<u8>
+    decreases n
+{ if n == 0 || radix < 2 { Seq::empty() } else { digits_fixed((v / radix as nat) as nat, radix, (n - 1) as nat).push(digit_char((v % radix as nat) as int)) } }
 /// the characters of an ASCII byte string
 pub open spec fn ascii_chars(s: Seq<u8>) -> Seq<char> { s.map_values(|b: u8| b as char) }
 
 
+//@@ rawconst src/uint/encoding.rs | - | RADIX_ENCODING_LIMBS_LARGE
+pub const RADIX_ENCODING_LIMBS_LARGE: usize = 32;
+//@@ end
+//@@ item src/uint/encoding.rs | struct RadixDivisionParams
+#[derive(Clone, Copy)]
+pub struct RadixDivisionParams {
+    pub radix: u32,
+    pub digits_limb: usize,
+    pub reciprocal: Reciprocal,
+    pub digits_large: usize,
+    pub div_large: [Limb; RADIX_ENCODING_LIMBS_LARGE],
+}
+//@@ end
+impl RadixDivisionParams {
+    /// a parameter set for a radix that is not a power of two: digits_limb = floor(log_radix(B - 1)), the reciprocal is that of
+    /// radix^digits_limb, div_large = radix^digits_large is the largest power of the radix that fits 32 limbs
+    pub open spec fn wf(&self) -> bool {
+        let r = self.radix as int;
+        &&& 3 <= r <= 36 && !is_pow2_radix(r)
+        &&& 1 <= self.digits_limb <= 63 && pow(r, self.digits_limb as nat) <= u64::MAX < pow(r, (self.digits_limb + 1) as nat)
+        &&& self.reciprocal.wf() && self.reciprocal.dv() == pow(r, self.digits_limb as nat)
+        &&& val(self.div_large@, 32) == pow(r, self.digits_large as nat) && self.div_large@[31].0 != 0
+        &&& val(self.div_large@, 32) * r >= bp(32)
+    }
+}
+//@@ fn src/uint/encoding.rs | impl RadixDivisionParams | encoded_size | body | props C17 C11
+impl RadixDivisionParams {
+pub const fn encoded_size(&self, limb_count: usize) -> (ret__: usize)
+//@+
+    requires self.digits_limb <= 63, limb_count * (self.digits_limb + 1) <= usize::MAX
+    ensures ret__ == limb_count * (self.digits_limb + 1)
+//@-
+{
+        // a slightly pessimistic estimate
+        limb_count * (self.digits_limb + 1)
+    }
+}
+//@@ end
+/// r >= 2 and r^k < 2^2048 ==> k < 2048
+pub proof fn lemma_digits_large_bound(r: int, k: nat)
+    requires r >= 2, pow(r, k) < bp(32)
+    ensures k < 2048
+{
+    lemma_pow_base2(r, k); lemma_bp_pow2(32); lemma_pow2(k);
+    if k >= 2048 { if k > 2048 { lemma_pow2_strictly_increases(2048, k); } }
+}
+
+//@@ fn src/uint/encoding.rs | - | radix_large_divisor | body | props C17 C11
+pub const fn radix_large_divisor(
+    radix: u32,
+    div_limb: NonZero<Limb>,
+    digits_limb: usize,
+) -> (ret__: ([Limb; RADIX_ENCODING_LIMBS_LARGE], usize))
+//@+
+    requires 2 <= radix <= 36, 1 <= digits_limb <= 63, div_limb.0.0 as int == pow(radix as int, digits_limb as nat)
+    ensures val(ret__.0@, 32) == pow(radix as int, ret__.1 as nat), val(ret__.0@, 32) * radix >= bp(32), val(ret__.0@, 32) >= bp(31)
+//@-
+{
+    let mut out = [Limb::ZERO; RADIX_ENCODING_LIMBS_LARGE];
+    let mut digits_large = digits_limb;
+    let mut top = 1;
+    out[0] = div_limb.0;
+//@+
+    let ghost r = radix as int;
+    let ghost dv = div_limb.0.0 as int;
+    proof {
+        lemma_bp_succ(0); lemma_bp_succ(1); lemma_pow1(r);
+        lemma_pow_increases(r as nat, 1, digits_limb as nat);
+        assert(val(out@, 1) == val(out@, 0) + dv * bp(0));
+        assert(dv * bp(0) == dv) by (nonlinear_arith) requires bp(0) == 1;
+        lemma_pow_increases(B() as nat, 1, 32);
+    }
+//@-
+    // Calculate largest power of div_limb (itself a power of radix)
+    while top < RADIX_ENCODING_LIMBS_LARGE
+//@+
+        invariant 2 <= radix <= 36, r == radix as int, 1 <= digits_limb <= 63, dv == div_limb.0.0 as int, dv == pow(r, digits_limb as nat), dv >= 2,
+            1 <= top <= 32, val(out@, top as nat) == pow(r, digits_large as nat), val(out@, top as nat) >= bp((top - 1) as nat),
+        decreases 32 - top, bp(top as nat) - val(out@, top as nat)
+//@-
+{
+        let mut carry = Limb::ZERO;
+        let mut j = 0;
+//@+
+        let ghost out0 = out@;
+        let ghost v0 = val(out0, top as nat);
+        proof { lemma_bp_succ(0); assert(0 * dv == 0); assert(0 * bp(0) == 0); }
+//@-
+        while j < top
+//@+
+            invariant j <= top <= 31, dv == div_limb.0.0 as int,
+                val(out@, j as nat) + carry.0 as int * bp(j as nat) == val(out0, j as nat) * dv,
+                forall|k: int| j <= k < 32 ==> out@[k] == out0[k],
+            decreases top - j
+//@-
+{
+//@+
+            let ghost cy0 = carry.0 as int; let ghost o1 = out@;
+//@-
+            let (__t0, __t1) = Limb::ZERO.mac(out[j], div_limb.0, carry); out[j] = __t0; carry = __t1;
+//@+
+            proof {
+                let i = j as nat;
+                lemma_val_ext(o1, out@, i); lemma_val_step(out@, i); lemma_val_step(out0, i); lemma_bp_succ(i);
+                let (t0, t1, x, pb, a) = (out@[j as int].0 as int, carry.0 as int, out0[j as int].0 as int, bp(i), val(out0, i));
+                assert((a + x * pb) * dv == a * dv + (x * dv) * pb) by (nonlinear_arith);
+                assert(t0 * pb + t1 * (B() * pb) == (x * dv + cy0) * pb) by (nonlinear_arith) requires t0 + t1 * B() == x * dv + cy0;
+                assert((x * dv + cy0) * pb == (x * dv) * pb + cy0 * pb) by (nonlinear_arith);
+            }
+//@-
+            j += 1;
+        }
+//@+
+        let ghost out1 = out@;
+        let ghost cy = carry.0 as int;
+        proof {
+            lemma_val_bound(out1, top as nat); lemma_bp_succ(top as nat); lemma_bp_succ((top - 1) as nat);
+            lemma_pow_adds(r, digits_large as nat, digits_limb as nat);
+            assert(v0 * dv >= 2 * v0) by (nonlinear_arith) requires dv >= 2, v0 >= 0;
+            if top < 32 { lemma_pow_increases(B() as nat, (top + 1) as nat, 32); }
+            assert(cy * bp(top as nat) < B() * bp(top as nat)) by (nonlinear_arith) requires cy < B(), bp(top as nat) > 0;
+        }
+//@-
+        if carry.0 != 0 {
+            out[top] = carry;
+//@+
+            proof {
+                lemma_val_ext(out1, out@, top as nat); lemma_val_step(out@, top as nat);
+                let pb = bp(top as nat);
+                assert(cy * pb >= pb) by (nonlinear_arith) requires cy >= 1, pb >= 0;
+            }
+//@-
+            top += 1;
+        }
+//@+
+        else { proof { assert(cy * bp(top as nat) == 0) by (nonlinear_arith) requires cy == 0; } }
+        proof {
+            lemma_val_bound(out@, top as nat);
+            if top < 32 { lemma_pow_increases(B() as nat, top as nat, 32); }
+            assert(val(out@, top as nat) == pow(r, (digits_large + digits_limb) as nat));
+            lemma_digits_large_bound(r, (digits_large + digits_limb) as nat);
+        }
+//@-
+        digits_large += digits_limb;
+    }
+    // Multiply by radix while we can do so without overflowing
+    let mut out_test = out;
+    loop
+//@+
+        invariant 2 <= radix <= 36, r == radix as int, val(out@, 32) == pow(r, digits_large as nat), val(out@, 32) >= bp(31),
+        ensures val(out@, 32) * radix >= bp(32)
+        decreases bp(32) - val(out@, 32)
+//@-
+{
+        let mut carry = Limb::ZERO;
+        let mut j = 0;
+//@+
+        proof { lemma_bp_succ(0); assert(0 * r == 0); assert(0 * bp(0) == 0); }
+//@-
+        while j < RADIX_ENCODING_LIMBS_LARGE
+//@+
+            invariant j <= 32, r == radix as int, 2 <= r <= 36,
+                val(out_test@, j as nat) + carry.0 as int * bp(j as nat) == val(out@, j as nat) * r,
+            decreases 32 - j
+//@-
+{
+//@+
+            let ghost cy0 = carry.0 as int; let ghost o1 = out_test@;
+//@-
+            let (__t2, __t3) = Limb::ZERO.mac(out[j], Limb(radix as Word), carry); out_test[j] = __t2; carry = __t3;
+//@+
+            proof {
+                let i = j as nat;
+                lemma_val_ext(o1, out_test@, i); lemma_val_step(out_test@, i); lemma_val_step(out@, i); lemma_bp_succ(i);
+                let (t0, t1, x, pb, a) = (out_test@[j as int].0 as int, carry.0 as int, out@[j as int].0 as int, bp(i), val(out@, i));
+                assert((a + x * pb) * r == a * r + (x * r) * pb) by (nonlinear_arith);
+                assert(t0 * pb + t1 * (B() * pb) == (x * r + cy0) * pb) by (nonlinear_arith) requires t0 + t1 * B() == x * r + cy0;
+                assert((x * r + cy0) * pb == (x * r) * pb + cy0 * pb) by (nonlinear_arith);
+            }
+//@-
+            j += 1;
+        }
+//@+
+        let ghost v = val(out@, 32); let ghost cy = carry.0 as int;
+        proof {
+            lemma_val_bound(out_test@, 32); lemma_bp_succ(31);
+            lemma_pow_succ(r, digits_large as nat);
+            assert(v * r >= 2 * v) by (nonlinear_arith) requires r >= 2, v >= 0;
+            let pb = bp(32);
+            if cy != 0 { assert(cy * pb >= pb) by (nonlinear_arith) requires cy >= 1, pb >= 0; }
+            else { assert(cy * pb == 0) by (nonlinear_arith) requires cy == 0; lemma_digits_large_bound(r, (digits_large + 1) as nat); assert(r * v == v * r) by (nonlinear_arith); }
+        }
+//@-
+        if carry.0 == 0 {
+            out = out_test;
+            digits_large += 1;
+        } else {
+            break;
+        }
+    }
+    (out, digits_large)
+}
+//@@ end
+// `const ALL: [Self; 31]` (the table of the parameter sets of the 30 radixes 3..=36 that are not powers of two, built in a const block with a
+// `while` loop) cannot be mirrored: in a `//@@ const` region the `{` of the loop stays on the `while` line (W1 applies to fn bodies only), so no
+// invariant can be attached. It is represented by the hand-declared ASSUMED function `ALL()` below (contents by position: entry k is a
+// well-formed parameter set of the k-th such radix); `for_radix` (table lookup by `radix + leading_zeros - 33`) is proved against it.
+pub open spec fn table_radix(k: int) -> int { if k < 1 { 3 } else if k < 4 { k + 4 } else if k < 11 { k + 5 } else if k < 26 { k + 6 } else { k + 7 } }
+/// the radixes 2..=36 that are powers of two (decoded / encoded by shifting)
+pub open spec fn is_pow2_radix(r: int) -> bool { r == 2 || r == 4 || r == 8 || r == 16 || r == 32 }
+impl RadixDivisionParams {
+    #[verifier::external_body]
+    pub const fn ALL() -> (ret__: [RadixDivisionParams; 31])
+        ensures forall|k: int| 0 <= k < 30 ==> (#[trigger] ret__@[k]).radix as int == table_radix(k) && ret__@[k].wf()
+    { unimplemented!() }
+}
+pub proof fn lemma_lz_radix(radix: u32)
+    requires 2 <= radix <= 36
+    ensures u32_leading_zeros(radix) == (if radix < 4 { 30u32 } else if radix < 8 { 29u32 } else if radix < 16 { 28u32 } else if radix < 32 { 27u32 } else { 26u32 })
+{
+    axiom_u32_leading_zeros(radix);
+    let l = u32_leading_zeros(radix);
+    assert(l < 32);
+    let a = (31 - l) as u32; let b = (32 - l) as u32;
+    assert((radix >> a) & 1u32 != 0u32);
+    assert(radix >> b == 0u32);
+    assert(l < 32 && a + l == 31 && b + l == 32 && (radix >> a) & 1u32 != 0u32 && (radix >> b) == 0u32 && 2 <= radix && radix <= 36 ==>
+        l == (if radix < 4 { 30u32 } else if radix < 8 { 29u32 } else if radix < 16 { 28u32 } else if radix < 32 { 27u32 } else { 26u32 })) by (bit_vector);
+}
+//@@ subst \bSelf::ALL\b(?!\() => Self::ALL()
+//@@ fn src/uint/encoding.rs | impl RadixDivisionParams | for_radix | body | props C17 C11
+impl RadixDivisionParams {
+pub const fn for_radix(radix: u32) -> (ret__: Self)
+//@+
+    requires 2 <= radix <= 36, !is_pow2_radix(radix as int)     // a power of two fails the table lookup ("radix lookup failure")
+    ensures ret__.radix == radix, ret__.wf()
+//@-
+{
+//@+
+    proof { lemma_lz_radix(radix); }
+//@-
+        if radix < RADIX_ENCODING_MIN || radix > RADIX_ENCODING_MAX {
+            panic!("invalid radix for division");
+        }
+        let ret = Self::ALL()[(radix + radix.leading_zeros() - 33) as usize];
+        if ret.radix != radix {
+            panic!("radix lookup failure");
+        }
+        ret
+    }
+}
+//@@ end
+//@@ fn src/uint/encoding.rs | impl RadixDivisionParams | encode_limbs | stub | props C17 C11
+impl RadixDivisionParams {
+#[verifier::external_body]
+pub fn encode_limbs(&self, limbs: &mut [Limb], out: &mut [u8])
+//@+
+    requires self.wf(), old(limbs)@.len() >= 1
+    ensures final(out)@ == digits_fixed(val(old(limbs)@, old(limbs)@.len()) as nat, self.radix as int, old(out)@.len()),
+        final(limbs)@.len() == old(limbs)@.len()
+//@-
+{
+    unimplemented!()
+}
+}
+//@@ end
+//@@ fn src/uint/encoding.rs | - | radix_encode_limbs_by_shifting | stub | props C17 C11
+#[verifier::external_body]
+pub fn radix_encode_limbs_by_shifting(radix: u32, limbs: &mut [Limb], out: &mut [u8])
+//@+
+    requires radix == 2 || radix == 4 || radix == 8 || radix == 16 || radix == 32, old(out)@.len() >= 1
+    ensures final(out)@ == digits_fixed(val(old(limbs)@, old(limbs)@.len()) as nat, radix as int, old(out)@.len()),
+        final(limbs)@.len() == old(limbs)@.len()
+//@-
+{
+    unimplemented!()
+}
+//@@ end
 //@@ fn src/uint/encoding.rs | - | radix_encode_limbs_mut_to_string | stub | props C17 C11
 #[verifier::external_body]
 pub fn radix_encode_limbs_mut_to_string(radix: u32, limbs: &mut [Limb]) -> (ret__: String)
@@ -42,6 +333,56 @@ pub fn radix_encode_limbs_mut_to_string(radix: u32, limbs: &mut [Limb]) -> (ret_
     unimplemented!()
 }
 //@@ end
+
+// ---------------------------------------------------------------- C17 round trip at the level of the two contracts
+/// the digit characters are decoded to their digit
+pub proof fn lemma_digit_char(d: int)
+    requires 0 <= d < 36
+    ensures digit_val(digit_char(d)) == d, digit_char(d) != 0x5f, digit_char(d) != 0x2b, (digit_char(d) == 0x30) == (d == 0)
+{ }
+
+/// the canonical digit string of v > 0 is a well-formed digit string without separators and leading zero, and denotes v
+pub proof fn lemma_canon_digits(v: nat, r: int)
+    requires v > 0, 2 <= r <= 36
+    ensures ({ let d = canon_digits(v, r); let n = d.len() as int;
+        n >= 1 && d[0] != 0x30 && seg_ok(d, 0, n, r) && seg_val(d, 0, n, r) == v
+        && forall|k: int| 0 <= k < n ==> d[k] != 0x5f && d[k] != 0x2b })
+    decreases v
+{
+    let rn = r as nat;
+    let q = (v / rn) as nat; let m = (v % rn) as int;
+    let pre = canon_digits(q, r); let d = canon_digits(v, r); let n = d.len() as int;
+    assert(d == pre.push(digit_char(m)));
+    lemma_digit_char(m);
+    lemma_fundamental_div_mod(v as int, r);
+    assert(q < v) by (nonlinear_arith) requires q == v / rn, v > 0, rn >= 2;
+    if q > 0 {
+        lemma_canon_digits(q, r);
+        lemma_seg_shift(pre, d, 0, 0, n - 1, r);
+        assert(char_ok(d[n - 1], r));
+        assert(seg_val(d, 0, n, r) == seg_val(d, 0, n - 1, r) * r + m);
+        assert(q * r == r * q) by (nonlinear_arith);
+    } else {
+        assert(pre.len() == 0);
+        assert(seg_val(d, 0, 0, r) == 0);
+        assert(0 * r == 0);
+        assert((v as int) / r == 0 && (v as int) % r == m);
+        assert(r * 0 == 0);
+        assert(v == m);
+    }
+}
+
+/// C17: parsing the canonical numeral of v gives v
+pub proof fn lemma_radix_roundtrip(v: nat, r: int)
+    requires 2 <= r <= 36
+    ensures numeral_val(canon_numeral(v, r), r) == Some(v)
+{
+    let s = canon_numeral(v, r);
+    if v > 0 { lemma_canon_digits(v, r); }
+    else { assert(seg_val(s, 0, 1, r) == seg_val(s, 0, 0, r) * r + 0); assert(0 * r == 0); assert(seg_val(s, 0, 0, r) == 0); assert(char_ok(s[0], r)); }
+    assert(numeral_body(s) == s);
+}
+
 // `&mut vec_buf[..n]` is `<Vec<T, A> as IndexMut<RangeTo<usize>>>::index_mut`: vstd specifies range IndexMut for slices and arrays only, and the
 // Vec impl cannot be given an `assume_specification` here (generic over `I: SliceIndex<[T]>` and the unstable `Allocator`), so the result would
 // be an unconstrained slice. The expression is routed through this `external_body` shim (body = the original expression) by the `subst` below;
@@ -74,12 +415,36 @@ pub fn radix_encode_limbs_to_string(radix: u32, limbs: &[Limb]) -> (ret__: Strin
 //@+
         assert(vec_buf@ =~= limbs@);
 //@-
-        &mut vec_buf[..limb_count]
+        vec_prefix_mut(&mut vec_buf, limb_count)
     };
 //@+
     assert(buf@ =~= limbs@);
 //@-
     radix_encode_limbs_mut_to_string(radix, buf)
+}
+//@@ end
+//@@ fn src/uint.rs | impl<const LIMBS: usize> Uint<LIMBS> | as_limbs_mut | body | props C16 C11
+impl<const LIMBS: usize> Uint<LIMBS> {
+pub const fn as_limbs_mut(&mut self) -> (ret__: &mut [Limb; LIMBS])
+//@+
+    ensures *ret__ == old(self).limbs, final(self).limbs == *final(ret__)
+//@-
+{
+        &mut self.limbs
+    }
+}
+//@@ end
+//@@ fn src/uint/encoding.rs | impl<const LIMBS:usize>Uint<LIMBS> | to_string_radix_vartime | body | props C17 C11
+impl<const LIMBS:usize>Uint<LIMBS> {
+pub fn to_string_radix_vartime(&self, radix: u32) -> (ret__: String)
+//@+
+    requires 2 <= radix <= 36, LIMBS >= 1
+    ensures ret__@ == ascii_chars(canon_numeral(self.v() as nat, radix as int))
+//@-
+{
+        let mut buf = *self;
+        radix_encode_limbs_mut_to_string(radix, buf.as_limbs_mut())
+    }
 }
 //@@ end
 
